@@ -29,7 +29,7 @@ PROPS['C14'] = dict(
     U('rect_2x4', 'C14_rect.cpp', ['VP_R=2', 'VP_C=4', 'VP_VMAX=2'], tiers=['thorough'], weight=15, jobs=4),
     U('rect_4x2_idx', 'C14_rect.cpp', ['VP_R=4', 'VP_C=2', 'VP_VMAX=2', 'VP_INDEX'], tiers=['thorough'], weight=15, jobs=4),
     U('line_int_n7', 'C14_line.cpp', ['VP_N=7'], tiers=['thorough'], weight=9),
-    U('line_double_n6', 'C14_line.cpp', ['VP_N=6', 'VP_T=double'], tiers=['thorough'], weight=6),
+    U('line_double_n6', 'C14_line.cpp', ['VP_N=6', 'VP_T=double', 'VP_GRIDV'], tiers=['thorough'], weight=6),
   ])
 
 # ------------------------------------------------------------------------------------------------ C10
@@ -129,7 +129,7 @@ for fl in range(3):
     for idx in (1, 2):
         _u05.append(_pm('C05_matrix.cpp', 'm_%s_idx%d_rows_rm' % (_FL[fl], idx), flavour=fl, idx=idx, rows=1, removable=1, rep=1 if fl == 1 else 0, m=4, extra=['VP_RM=2'], weight=6, must=('end', 'removed')))
 for fl in range(3):
-    _u05.append(_pm('C05_matrix.cpp', 'm_%s_gapped_ids_rm' % _FL[fl], flavour=fl, idx=0 if fl != 2 else 2, removable=1, rep=0, m=4, extra=['VP_RM=2', 'VP_IDS'], weight=8, must=('end', 'removed')))
+    _u05.append(_pm('C05_matrix.cpp', 'm_%s_gapped_ids_rm' % _FL[fl], flavour=fl, idx=0 if fl != 2 else 2, removable=1, rep=1 if fl == 1 else 0, m=4, extra=['VP_RM=2', 'VP_IDS'], weight=12, must=('end', 'removed')))
 _u05.append(_pm('C05_matrix.cpp', 'm_ru_z5_units', z2=0, flavour=1, rep=1, m=4, extra=['VP_UNITS'], weight=8))
 _u05.append(_pm('C05_matrix.cpp', 'm_chain_z5_units_rm', z2=0, flavour=2, removable=1, m=4, extra=['VP_UNITS', 'VP_RM=1'], weight=8))
 _u05.append(_pm('C05_matrix.cpp', 'm_boundary_set_rows2', col='SET', flavour=0, rows=2, m=5, weight=6))
@@ -204,15 +204,15 @@ PROPS['C17'] = dict(
   outside=['more than 5 vertices', 'histories longer than k', 'geometric (point-carrying) complexes'],
   units=[U('skbl_n4k3', 'C17_skbl.cpp', ['VP_N=4', 'VP_K=3'], weight=6, must_reach=_t17), U('skbl_full_n4k2', 'C17_skbl.cpp', ['VP_N=4', 'VP_K=2', 'VP_START_FULL'], weight=6, must_reach=['end', 'remove_star', 'contract_edge']),
          U('skbl_full_n4k2_kf', 'C17_skbl.cpp', ['VP_N=4', 'VP_K=2', 'VP_START_FULL', 'VP_KF_STAR'], weight=4, must_reach=[], kf='C17-remove-star-sub-blocker'),
-         U('skbl_n4k4', 'C17_skbl.cpp', ['VP_N=4', 'VP_K=4'], tiers=['thorough'], weight=30, must_reach=_t17), U('skbl_full_n5k2', 'C17_skbl.cpp', ['VP_N=5', 'VP_K=2', 'VP_START_FULL'], tiers=['thorough'], weight=30, must_reach=['end', 'remove_star'])])
+         U('skbl_n4k4', 'C17_skbl.cpp', ['VP_N=4', 'VP_K=4'], tiers=['thorough'], weight=30, must_reach=_t17), U('skbl_full_n5k2', 'C17_skbl.cpp', ['VP_N=5', 'VP_K=2', 'VP_START_FULL'], weight=30, must_reach=['end', 'remove_star'])])
 
 # ------------------------------------------------------------------------------------------------ C20
 PROPS['C20'] = dict(
   explanation='Bounded symbolic execution of the real Permutahedral_representation iterators (vertices, faces, facets, cofaces, cofacets, is_face_of) and of Freudenthal_triangulation::locate_point / barycenter (clang IR of the headers in /repo, Eigen included): the base vertex is symbolic, the ordered set partition ranges over the generated list of all ordered partitions of {0..d} (forked by the solver), the query point over a quarter-integer grid; the face lattice clauses are asserted as vertex-set statements and point location by the exact rational characterisation of the relative interior.',
-  bounds=dict(quick='d=2 (13 ordered partitions) and d=3 (75): all simplices around a symbolic base vertex in [-1,1]^d; is_face_of against a second symbolic simplex (d=2); point location on the grid {-1,-3/4,..,1}^d for d=2,3', thorough='d=4 (541 partitions) for the face lattice; point location d=4'),
+  bounds=dict(quick='d=2 (13 ordered partitions) and d=3 (75): all simplices around a symbolic base vertex in [-1,1]^d; is_face_of against a second symbolic simplex (d=2); point location on the grid {-1,-3/4,..,1}^d for d=2,3; d=4 (541 partitions) for the face/coface lattice incl. completeness of coface_range (count of refinements, listed once)', thorough='+ point location d=4'),
   outside=['Coxeter_triangulation and general affine maps (point location goes through Eigen ColPivHouseholderQR::solve on symbolic data)', 'query points off the quarter-integer grid', 'ambient dimension above 4'],
   units=[U('perm_d2', 'C20_coxeter.cpp', ['VP_D=2'], weight=5), U('perm_d3', 'C20_coxeter.cpp', ['VP_D=3', 'VP_NO_SECOND'], weight=10), U('locate_d2', 'C20_coxeter.cpp', ['VP_D=2', 'VP_LOCATE'], weight=4), U('locate_d3', 'C20_coxeter.cpp', ['VP_D=3', 'VP_LOCATE'], weight=8),
-         U('perm_d4', 'C20_coxeter.cpp', ['VP_D=4', 'VP_NO_SECOND'], tiers=['thorough'], weight=40), U('locate_d4', 'C20_coxeter.cpp', ['VP_D=4', 'VP_LOCATE'], tiers=['thorough'], weight=30)])
+         U('perm_d4', 'C20_coxeter.cpp', ['VP_D=4', 'VP_NO_SECOND'], weight=40), U('locate_d4', 'C20_coxeter.cpp', ['VP_D=4', 'VP_LOCATE'], tiers=['thorough'], weight=30)])
 
 # ------------------------------------------------------------------------------------------------ C04
 PROPS['C04'] = dict(
